@@ -35,7 +35,7 @@ ASSUMPTIONS = [
 
 def run(case, rec):
     prof = serial.Profile(case["profile"])
-    tree = prof.build(case["spec"])
+    tree = prof.build(case["spec"], late_move=case.get("late_move"))
     src_view = prof.view(tree)
     u = Uids()
     before = snapshot(tree, u, label=lambda n: repr(n.data))
